@@ -252,82 +252,7 @@ func checkC05(c *Ctx) {
 		}
 		c.Min("R5", "waiting-flag writers", nW, 4)
 	}
-	for _, name := range []string{"AssignSeats", "RandomAssignSeats"} {
-		f := p.Method(smT, name)
-		if f == nil {
-			c.Bad("R5", name, "-", "assigner not found")
-			continue
-		}
-		n := 0
-		for _, ss := range p.Stores([]*ssa.Function{f}) {
-			if ss.Owner != "SeatPlayer" || ss.Field != "IsBetweenDealerBB" || storeIsLocal(ss.Instr) {
-				continue
-			}
-			n++
-			v := ss.Val.Strip()
-			ok := false
-			d := "waiting flag of a new seat is " + v.String()
-			if v.Kind == "phi" {
-				ph := v.V.(*ssa.Phi)
-				sawCall, sawFalse := false, false
-				for i, e := range ph.Edges {
-					es := p.Sym(e).Strip()
-					if b, isB := es.ConstBool(); isB && !b {
-						sawFalse = true
-						continue
-					}
-					if es.IsCall("seatManager.IsPlayerBetweenDealerBB") {
-						pred := ph.Block().Preds[i]
-						gs := append(p.GuardsAtBlock2(pred), p.edgeGuardsInto(pred)...)
-						if guardedBy(gs, true, func(s *Sym) bool { return s.IsField("seatManager", "IsInit") }) {
-							sawCall = true
-						}
-						// id is the id seated at that seat
-						seat := ss.Addr.Strip().Args[0].Strip() // SeatData[seat]
-						idOK := false
-						for _, mu := range p.Stores([]*ssa.Function{f}) {
-							if m, isM := mu.Instr.(*ssa.MapUpdate); isM && p.Sym(m.Map).Strip().IsField("seatManager", "SeatData") && seat.Kind == "lookup" && p.Sym(m.Key).Strip().String() == seat.Args[1].Strip().String() {
-								// value: &sp where sp = newSeatPlayer(id)
-								for _, st := range p.Stores([]*ssa.Function{f}) {
-									if st.Addr.Kind == "alloc" && st.Addr.V == ssa.Value(rootAlloc(m.Value)) {
-										nv := st.Val.Strip()
-										if nv.Kind == "call" && len(nv.Args) == 2 && nv.Args[1].Strip().String() == es.Args[1].Strip().String() {
-											idOK = true
-										}
-									}
-								}
-							}
-						}
-						// … or the flag is written straight into the record that was just built for that id
-						// (sp := newSeatPlayer(id); SeatData[seat] = &sp; sp.IsBetweenDealerBB = …)
-						var addrV ssa.Value
-						if stI, isSt := ss.Instr.(*ssa.Store); isSt {
-							addrV = stI.Addr
-						}
-						if fa, isFA := addrV.(*ssa.FieldAddr); isFA && !idOK {
-							if al, isAl := fa.X.(*ssa.Alloc); isAl {
-								for _, st := range p.Stores([]*ssa.Function{f}) {
-									if st.Addr.Kind == "alloc" && st.Addr.V == ssa.Value(al) {
-										nv := st.Val.Strip()
-										if nv.Kind == "call" && len(nv.Args) == 2 && nv.Args[1].Strip().String() == es.Args[1].Strip().String() {
-											idOK = true
-										}
-									}
-								}
-							}
-						}
-						if !idOK {
-							sawCall = false
-							d = "the waiting flag is computed for a different id than the one seated"
-						}
-					}
-				}
-				ok = sawCall && sawFalse
-			}
-			c.Check(ok, "R5", name+":waiting-flag", p.InstrPos(ss.Instr), "IsInit ? IsPlayerBetweenDealerBB(id) : false", d)
-		}
-		c.Min("R5", "waiting-flag stores in "+name, n, 1)
-	}
+	checkAssignWaitingFlag(c, "R5", smT)
 	if f := p.Method(smT, "IsPlayerBetweenDealerBB"); f != nil {
 		// true only when initialised and not short deck
 		ok := true
@@ -836,4 +761,87 @@ func checkRotationWaitingFlags(c *Ctx, rule string, smT *types.Named) {
 		}
 	}
 	c.Min(rule, "waiting-flag stores in the rotation", n6, 2)
+}
+
+// checkAssignWaitingFlag (C05.R5, shared as C06.R12): a newly assigned seat's waiting flag is
+// "initialised ? strictly between dealer and BB (asked for the id that now sits there, after the seat was recorded) : false".
+// A newcomer whose flag is wrong is dealt in between the button and the blinds, where the label hand-out has no slot for him.
+func checkAssignWaitingFlag(c *Ctx, rule string, smT *types.Named) {
+	p := c.P
+	for _, name := range []string{"AssignSeats", "RandomAssignSeats"} {
+		f := p.Method(smT, name)
+		if f == nil {
+			c.Bad(rule, name, "-", "assigner not found")
+			continue
+		}
+		n := 0
+		for _, ss := range p.Stores([]*ssa.Function{f}) {
+			if ss.Owner != "SeatPlayer" || ss.Field != "IsBetweenDealerBB" || storeIsLocal(ss.Instr) {
+				continue
+			}
+			n++
+			v := ss.Val.Strip()
+			ok := false
+			d := "waiting flag of a new seat is " + v.String()
+			if v.Kind == "phi" {
+				ph := v.V.(*ssa.Phi)
+				sawCall, sawFalse := false, false
+				for i, e := range ph.Edges {
+					es := p.Sym(e).Strip()
+					if b, isB := es.ConstBool(); isB && !b {
+						sawFalse = true
+						continue
+					}
+					if es.IsCall("seatManager.IsPlayerBetweenDealerBB") {
+						pred := ph.Block().Preds[i]
+						gs := append(p.GuardsAtBlock2(pred), p.edgeGuardsInto(pred)...)
+						if guardedBy(gs, true, func(s *Sym) bool { return s.IsField("seatManager", "IsInit") }) {
+							sawCall = true
+						}
+						// id is the id seated at that seat
+						seat := ss.Addr.Strip().Args[0].Strip() // SeatData[seat]
+						idOK := false
+						for _, mu := range p.Stores([]*ssa.Function{f}) {
+							if m, isM := mu.Instr.(*ssa.MapUpdate); isM && p.Sym(m.Map).Strip().IsField("seatManager", "SeatData") && seat.Kind == "lookup" && p.Sym(m.Key).Strip().String() == seat.Args[1].Strip().String() {
+								// value: &sp where sp = newSeatPlayer(id)
+								for _, st := range p.Stores([]*ssa.Function{f}) {
+									if st.Addr.Kind == "alloc" && st.Addr.V == ssa.Value(rootAlloc(m.Value)) {
+										nv := st.Val.Strip()
+										if nv.Kind == "call" && len(nv.Args) == 2 && nv.Args[1].Strip().String() == es.Args[1].Strip().String() {
+											idOK = true
+										}
+									}
+								}
+							}
+						}
+						// … or the flag is written straight into the record that was just built for that id
+						// (sp := newSeatPlayer(id); SeatData[seat] = &sp; sp.IsBetweenDealerBB = …)
+						var addrV ssa.Value
+						if stI, isSt := ss.Instr.(*ssa.Store); isSt {
+							addrV = stI.Addr
+						}
+						if fa, isFA := addrV.(*ssa.FieldAddr); isFA && !idOK {
+							if al, isAl := fa.X.(*ssa.Alloc); isAl {
+								for _, st := range p.Stores([]*ssa.Function{f}) {
+									if st.Addr.Kind == "alloc" && st.Addr.V == ssa.Value(al) {
+										nv := st.Val.Strip()
+										if nv.Kind == "call" && len(nv.Args) == 2 && nv.Args[1].Strip().String() == es.Args[1].Strip().String() {
+											idOK = true
+										}
+									}
+								}
+							}
+						}
+						if !idOK {
+							sawCall = false
+							d = "the waiting flag is computed for a different id than the one seated"
+						}
+					}
+				}
+				ok = sawCall && sawFalse
+			}
+			c.Check(ok, rule, name+":waiting-flag", p.InstrPos(ss.Instr), "IsInit ? IsPlayerBetweenDealerBB(id) : false", d)
+		}
+		c.Min(rule, "waiting-flag stores in "+name, n, 1)
+	}
 }
